@@ -796,6 +796,8 @@ mod tests {
                 Ctx::Subscribe => 2,
                 Ctx::Unsubscribe => 3,
                 Ctx::Disconnect => 4,
+                // the request/response builders produce PUBLISH packets (judged through the Publish row)
+                Ctx::PublishCorrelated | Ctx::Reply => continue,
             };
             let _ = ci;
             for id in ALL_PROP_IDS {
